@@ -284,10 +284,10 @@ def fn_torch_pairs(items):
 
 
 def legs(tier):
-    Ns = (1, 2, 3) if tier == 'quick' else (1, 2, 3, 4, 5)
+    Ns = (1, 2, 3, 4) if tier == 'quick' else (1, 2, 3, 4, 5)
     out = []
     items = [[N, i] for N in Ns for i in range(4 ** N)]
-    out.append(Leg('pairs', fn_pairs, items, chunk=8 if tier == 'quick' else 2,
+    out.append(Leg('pairs', fn_pairs, items, chunk=4 if tier == 'quick' else 2,
                    src_states=sum(4 * 4 ** N for N in Ns),
                    bound='N in %s: all (4*4^N)^2 ordered pairs' % (Ns,)))
     tn = (1, 2) if tier == 'quick' else (1, 2, 3)
